@@ -166,6 +166,34 @@ Theorem c05_encode_injective_printed : forall emit1 emit2 s1 s2 l1 l2,
 Proof. exact encode_injective_printed. Qed.
 Print Assumptions c05_encode_injective_printed.
 
+(** ALL EIGHT VALUE TYPES.  [emit] is the text the encoder is handed for float64 / []float64 values
+    (Go's strconv / JSON float formatting, not specified here).  Whatever it is, as long as those texts
+    hold no backslash and no '=' (checked on every observed float text by the harness), the encoding of
+    any set -- floats as bit patterns, slices as lists, keys and strings arbitrary bytes, string-slice
+    elements JSON-plain -- decodes to exactly its key -> printed value mapping ... *)
+Theorem c05_encode_decodable_all_types : forall emit s, EncodingSpecF emit s (encode emit s).
+Proof. exact encode_decodable_f. Qed.
+Print Assumptions c05_encode_decodable_all_types.
+
+(** ... so two sets with the same encoding have the same printed mapping. *)
+Theorem c05_encode_injective_printed_all_types : forall emit1 emit2 s1 s2 l1 l2,
+  printed_f emit1 s1 = Some l1 -> printed_f emit2 s2 = Some l2 -> encode emit1 s1 = encode emit2 s2 -> l1 = l2.
+Proof. exact encode_injective_printed_f. Qed.
+Print Assumptions c05_encode_injective_printed_all_types.
+
+(** The full-strength statement "different sets have different encodings" is FALSE for the default
+    encoder (finding F-C05-2): the sets {k -> Int64(1)} and {k -> String("1")} are different, sorted,
+    duplicate-free, not Equals -- and encode to the same string "k=1", for every float text function. *)
+Theorem c05_encode_injective_refuted : exists s1 s2,
+  SortedUnique s1 /\ SortedUnique s2 /\ s1 <> s2 /\ set_equals s1 s2 = false /\
+  forall emit, encode emit s1 = encode emit s2.
+Proof.
+  exists [(str "k", VInt 1)], [(str "k", VStr (str "1"))].
+  split; [split; [intros ? []|exact I]|]. split; [split; [intros ? []|exact I]|].
+  split; [discriminate|]. split; [reflexivity|]. intro emit. reflexivity.
+Qed.
+Print Assumptions c05_encode_injective_refuted.
+
 (** Special case kept from the first version: string-valued sets decode to exactly their bindings. *)
 Theorem c05_encode_strings_lossless : forall emit s l,
   all_some (map string_binding s) = Some l -> decode_enc (encode emit s) = Some l.
@@ -207,10 +235,11 @@ Theorem c05_checkers_sound :
   (forall keep orig kept dropped,
      filter_ok keep orig kept dropped = true -> FilterSpec keep orig kept dropped) /\
   (forall a b merged, merge_ok a b merged = true -> MergeSpec a b merged) /\
-  (forall s enc, encoding_ok s enc = true -> EncodingSpec s enc).
+  (forall s enc, encoding_ok s enc = true -> EncodingSpec s enc) /\
+  (forall emit s enc, encoding_ok_f emit s enc = true -> EncodingSpecF emit s enc).
 Proof.
   split; [exact newset_ok_sound|]. split; [exact equals_ok_sound|].
-  split; [exact filter_ok_sound|]. split; [exact merge_ok_sound | exact encoding_ok_sound].
+  split; [exact filter_ok_sound|]. split; [exact merge_ok_sound|]. split; [exact encoding_ok_sound | exact encoding_ok_f_sound].
 Qed.
 Print Assumptions c05_checkers_sound.
 
@@ -242,6 +271,13 @@ Example ex_encode :
   printed s = Some [(str "a,b", str "x=y\"); (str "i", str "[1,-1]"); (str "k", []);
                     (str "s", [91; 34] ++ str "p,q" ++ [34; 44; 34] ++ str "r s" ++ [34; 93]); (str "t", str "[true false]")] /\
   decode_enc (encode (fun _ => []) s) = printed s.
+Proof. vm_compute. auto. Qed.
+Example ex_encode_floats :
+  let emit := fun v => match v with VFloat _ => str "NaN" | _ => str "[1.5,-0]" end in
+  let s := [(str "f", VFloat NAN_BITS); (str "g", VFloats [4609434218613702656; NEG_ZERO_BITS]); (str "h", VStrs [])] in
+  encode emit s = str "f=NaN,g=[1.5,-0],h=[]" /\
+  decode_enc (encode emit s) = Some [(str "f", str "NaN"); (str "g", str "[1.5,-0]"); (str "h", str "[]")] /\
+  printed_f emit s = decode_enc (encode emit s) /\ printed s = None.
 Proof. vm_compute. auto. Qed.
 Example ex_json_escaping :
   text_strs [[34; 92; 10; 1; 60; 127]; []] = [91; 34] ++ str "\" ++ [34] ++ str "\\\n\u0001\u003c" ++ [127; 34; 44; 34; 34; 93].
